@@ -30,7 +30,8 @@ so an edit of one package's marshal.go breaks that package's `rfl`, an edit of t
 `Bytes` / `RawBytes` (section 1b): the generated encoders write exactly `encCompressed` / `encRaw` of the model for every receiver pair with
 canonical coordinates (`EncodesC`, `EncodesR`; the flag OR-ed into the first byte = `code · 2^(8·fb−k)` added to the big-endian value, which
 needs `p ≤ 2^(8·fb−k)` of `Codec.OK`); `isZeroed` = "big-endian value zero", `isCompressed` = "flag is not an uncompressed one" for all 256 bytes.
-Not covered: G2 (tower coordinate = sequence of element codecs), the stream Encoder / Decoder,
+G2 of bw6-633 / bw6-761 (coordinates in Fp) is the G1 text with `bTwistCurveCoeff` and is covered (section 1d).
+Not covered: G2 over Fp² / Fp⁴ (bn254, BLS12, BLS24: tower coordinate = sequence of element codecs, `Legendre` before `Sqrt`), the stream Encoder / Decoder,
 `unsafeSetCompressedBytes` / `unsafeComputeY`.
 -/
 namespace GV.PointCodec
@@ -321,6 +322,50 @@ theorem C07codec_RawBytes_secp256k1 (P : Prims α) (C : Codec α) (g : α → α
   rw [secp256k1_RawBytes, ← hfb]
   exact goRawBytesRaw_eq P C g R h hL x y hx hy
 
+/-! ## 1d. G2 of bw6-633 / bw6-761 (coordinates in the base field: the G1 text with the twist coefficient) -/
+
+theorem C07codec_G2_setBytes_bw6_633 (P : Prims α) (C : Codec α) (R : Rel P C (goRhsTwist P)) (hL : C.L = .three) (hfb : C.fb = 80) :
+    Refines C (GV.Gen.PointCodec.bw6_633.G2_setBytes P) := by
+  intro pX pY buf sub
+  rw [bw6_633_G2_setBytes, ← hfb]
+  exact goSetBytes3_refines P C _ R hL pX pY buf sub
+
+theorem C07codec_G2_SetBytes_bw6_633 (P : Prims α) (pX pY : α) (buf : List UInt8) :
+    GV.Gen.PointCodec.bw6_633.G2_SetBytes P pX pY buf = GV.Gen.PointCodec.bw6_633.G2_setBytes P pX pY buf true := rfl
+
+theorem C07codec_G2_Bytes_bw6_633 (P : Prims α) (C : Codec α) (g : α → α) (R : Rel P C g) (h : C.OK) (hL : C.L = .three) (hfb : C.fb = 80) :
+    EncodesC C (GV.Gen.PointCodec.bw6_633.G2_Bytes P) := by
+  intro x y hx
+  rw [bw6_633_G2_Bytes, ← hfb]
+  exact goBytes3_eq P C g R h hL x y hx
+
+theorem C07codec_G2_RawBytes_bw6_633 (P : Prims α) (C : Codec α) (g : α → α) (R : Rel P C g) (hL : C.L = .three) (hfb : C.fb = 80) :
+    EncodesR C (GV.Gen.PointCodec.bw6_633.G2_RawBytes P) := by
+  intro x y hx hy
+  rw [bw6_633_G2_RawBytes, ← hfb]
+  exact goRawBytes3_eq P C g R hL x y hx hy
+
+theorem C07codec_G2_setBytes_bw6_761 (P : Prims α) (C : Codec α) (R : Rel P C (goRhsTwist P)) (hL : C.L = .three) (hfb : C.fb = 96) :
+    Refines C (GV.Gen.PointCodec.bw6_761.G2_setBytes P) := by
+  intro pX pY buf sub
+  rw [bw6_761_G2_setBytes, ← hfb]
+  exact goSetBytes3_refines P C _ R hL pX pY buf sub
+
+theorem C07codec_G2_SetBytes_bw6_761 (P : Prims α) (pX pY : α) (buf : List UInt8) :
+    GV.Gen.PointCodec.bw6_761.G2_SetBytes P pX pY buf = GV.Gen.PointCodec.bw6_761.G2_setBytes P pX pY buf true := rfl
+
+theorem C07codec_G2_Bytes_bw6_761 (P : Prims α) (C : Codec α) (g : α → α) (R : Rel P C g) (h : C.OK) (hL : C.L = .three) (hfb : C.fb = 96) :
+    EncodesC C (GV.Gen.PointCodec.bw6_761.G2_Bytes P) := by
+  intro x y hx
+  rw [bw6_761_G2_Bytes, ← hfb]
+  exact goBytes3_eq P C g R h hL x y hx
+
+theorem C07codec_G2_RawBytes_bw6_761 (P : Prims α) (C : Codec α) (g : α → α) (R : Rel P C g) (hL : C.L = .three) (hfb : C.fb = 96) :
+    EncodesR C (GV.Gen.PointCodec.bw6_761.G2_RawBytes P) := by
+  intro x y hx hy
+  rw [bw6_761_G2_RawBytes, ← hfb]
+  exact goRawBytes3_eq P C g R hL x y hx hy
+
 /-! ## 2. the Go-exact decoder against the property -/
 
 /-- outside the two findings the generated code computes the decoder of the model (same point, same size, same error class) -/
@@ -449,6 +494,7 @@ def toyPrims : Prims Nat where
   sqrt := toy.sqrt
   lex := toy.lex
   bCurveCoeff := 3
+  bTwistCurveCoeff := 3
   isInSubGroup := toy.goInSub
 
 /-- the hypotheses `Rel` are satisfiable -/
